@@ -82,8 +82,8 @@ fn run(ch: Chooser, ctx: &RunCtx, mut opts: BasicOpts) -> RunOut {
     // address changes, no application close
     opts.allow_corrupt = false;
     opts.idle_off = true;
-    opts.wl.unordered = 100;
-    opts.wl.lazy = 100;
+    opts.wl.unordered = opts.wl.unordered.max(100);
+    opts.wl.lazy = opts.wl.lazy.max(100);
     let mut sc = Basic::build(&mut w, opts);
     w.run(&mut sc);
     liveness_end_checks(&mut w, &sc);
@@ -114,6 +114,25 @@ fn fam_multi(ch: Chooser, ctx: &RunCtx) -> RunOut {
     run(ch, ctx, BasicOpts { op_kinds: vec![0, 1, 2, 3, 4], n_clients: 2, conns_per_client: 2, streams_max: 4, size_max: 20_000, pad_rate: 100, ..Default::default() })
 }
 
+/// more streams than the peer's stream limit allows at a time, receivers that stop streams at
+/// any point (also after everything has arrived) and read lazily: progress depends on stream
+/// credit being returned in every one of those cases
+fn fam_stream_limit(mut ch: Chooser, ctx: &RunCtx) -> RunOut {
+    let mut sk = crate::cfgs::TKnobs::default();
+    let mut ck = crate::cfgs::TKnobs::default();
+    for k in [&mut sk, &mut ck] {
+        k.max_bidi = *ch.pick("c02.sl.max_bidi", &[1u64, 2, 3]);
+        k.max_uni = *ch.pick("c02.sl.max_uni", &[1u64, 2, 3]);
+        k.stream_window = *ch.pick("c02.sl.stream_window", &[1_250_000u64, 1000, 64, 16_384]);
+    }
+    let mut o = BasicOpts { op_kinds: vec![1], ops_max: 1, streams_max: 10, size_max: 3000, reset_rate: 250, fixed_knobs: Some((sk, ck)), max_drop: 200, ..Default::default() };
+    o.wl.stop = 400;
+    o.wl.lazy = 400;
+    let mut out = run(ch, ctx, o);
+    out.nontrivial = true;
+    out
+}
+
 pub fn spec() -> PropSpec {
     PropSpec {
         id: "C02",
@@ -123,9 +142,10 @@ pub fn spec() -> PropSpec {
             Family { name: "cc", f: fam_cc, weight: 15 },
             Family { name: "bigcert", f: fam_bigcert, weight: 10 },
             Family { name: "multi", f: fam_multi, weight: 10 },
+            Family { name: "stream-limit", f: fam_stream_limit, weight: 10 },
         ],
-        quick_worlds: 30_000,
-        thorough_worlds: 800_000,
+        quick_worlds: 100_000,
+        thorough_worlds: 1_500_000,
         panic_is_violation: true,
         rule: "each world = one seeded execution of event-driven workloads (idle timeout and keep-alive off unless drawn) under a fair-loss fault phase followed by a clean phase, or under directed loss of chosen datagrams; non-trivial = a fault fired or >1 connection; distinct = distinct abstract-event signature",
         assumptions: vec![
